@@ -102,6 +102,9 @@ impl Disk
     {
         let mut dirs = BTreeMap::new();
         dirs.insert("".to_string(), 0);
+        // one workspace directory exists on every fresh disk, so that generated rules can have targets inside a
+        // directory (`dir/x`); the model's path map is flat and needs no counterpart
+        dirs.insert("dir".to_string(), 0);
         Disk{files : BTreeMap::new(), dirs : dirs}
     }
 
